@@ -21,72 +21,60 @@ def in_mem_param(body):
 
 
 def r1_marker_after_commit(facts, rep):
-    rep.rule("C15-R1", "every call of Config::write_meta is dominated by the success edge of IndexWriter::commit and of "
-                       "IndexReader::reload and lies on the !in_memory side; the version and hash stored in the marker "
-                       "are this build's")
+    rep.rule("C15-R1", "the marker is written only for an index that is complete and current (session summaries of open_inner, "
+                       "helpers followed): every write_meta effect comes after a successful commit and a successful reload, only in "
+                       "an on-disk session, and the configuration it writes carries this build's version and the hash of this "
+                       "build's assets")
     body = anchor(rep, "C15-R1", facts, "db::Db::open_inner")
     if body is None:
         return
-    cfg = body.cfg
-    wm = flow.calls_named(body, lambda n: n == "config::Config::write_meta")
-    rep.floor("C15-R1", "write_meta calls in open_inner", len(wm), 1)
-    pm = in_mem_param(body)
-    psw = param_bool_switches(body, pm) if pm else []
-    for wb, wt, wsp, _ in wm:
-        for need in ("tantivy::IndexWriter::commit", "tantivy::IndexReader::reload"):
-            calls = flow.calls_named(body, lambda n, c=need: n == c)
-            good = False
-            for cb, ct, csp, _ in calls:
-                e = flow.ok_edge(body, cb)
-                if e and e[1] is not None and wb in cfg.blocks_only_via_edge(e[0], e[1]):
-                    good = True
-            rep.ob("C15-R1", "write_meta-after:%s" % need.split("::")[-1], good,
-                   "write_meta is %sdominated by the success edge of %s (%d call(s) of it in open_inner)" % (
-                       "" if good else "NOT ", need, len(calls)), body.site(wsp),
-                   sample={"write_meta_block": wb, "guard": need})
-        good = any(f is not None and wb in cfg.blocks_only_via_edge(sw, f) for sw, f, t in psw)
-        rep.ob("C15-R1", "write_meta-not-in-memory", good,
-               "write_meta is %sreachable only when in_memory is false" % ("" if good else "NOT "), body.site(wsp))
-    # what is stored: meta.version <- this_version, meta.database_hash <- hash_assets()
-    stored = {}
-    for b, i, s in body.stmts():
-        fs = F.place_fields(s["place"])
-        if len(fs) >= 2 and fs[-2] == "meta" and fs[-1] in ("version", "database_hash"):
-            ls = flow.slice_back(body, {"k": "copy", "place": {"local": s["place"]["local"], "proj": []}}) \
-                if False else None
-            rv = s["rv"]
-            leaves = set()
-            if rv["k"] == "aggregate":
-                for o in rv["ops"]:
-                    leaves |= flow.slice_back(body, o, facts=facts, through_agg=True)
-            elif rv["k"] == "use":
-                leaves |= flow.slice_back(body, rv["op"], facts=facts, through_agg=True)
-            stored[fs[-1]] = (leaves, b["id"], s["span"])
-    v = stored.get("version")
-    okv = False
-    if v:
-        for l in v[0]:
-            if l[0] == "call" and "to_owned" in l[1]:
-                t = body.blocks[l[2]]["term"]["t"]
-                for l2 in flow.slice_back(body, t["args"][0], facts=facts):
-                    if l2[0] == "param" or l2[0] == "call":
-                        pass
-                okv = flow.field_origins(body, t["args"][0]) == {("this_version",)}
-    rep.ob("C15-R1", "stored-version", okv, "meta.version is assigned config.this_version", body.site(v[2]) if v else "")
-    h = stored.get("database_hash")
-    okh = bool(h) and any(l[0] == "call" and l[1] == "config::Config::hash_assets" for l in h[0])
-    rep.ob("C15-R1", "stored-hash", okh, "meta.database_hash is assigned the result of hash_assets()",
-           body.site(h[2]) if h else "")
-    # both are assigned after the successful commit as well (so an early write cannot leak a current marker)
-    for nm, st in stored.items():
-        for need in ("tantivy::IndexWriter::commit",):
-            good = False
-            for cb, ct, csp, _ in flow.calls_named(body, lambda n, c=need: n == c):
-                e = flow.ok_edge(body, cb)
-                if e and st[1] in cfg.blocks_only_via_edge(e[0], e[1]):
-                    good = True
-            rep.ob("C15-R1", "meta.%s-after-commit" % nm, good,
-                   "meta.%s is updated only after a successful commit" % nm, body.site(st[2]))
+    n_wm = 0
+    bad = []
+    seen_disk = False
+    for in_memory in (True, False):
+        try:
+            dom, it, body_, outs = open_inner_summary(facts, in_memory)
+        except _core.Undecided as e:
+            rep.ob("C15-R1", "summary:in_memory=%s" % in_memory, False, "undecided: %s" % e, body.site())
+            return
+        for o in outs:
+            log = list(dom.log(o.store))
+            for i_, e in enumerate(log):
+                if e[0] != "write_meta":
+                    continue
+                n_wm += 1
+                if in_memory:
+                    bad.append("an in-memory session writes the marker")
+                    continue
+                seen_disk = True
+                before = [x[0] for x in log[:i_]]
+                fails = [x for x in log[:i_] if x[0] == "fail"]
+                if "commit" not in before or "reload" not in before or fails or before.index("commit") > before.index("reload"):
+                    bad.append("write_meta after %s (failures before it: %s)" % (before, [x[1] for x in fails]))
+                cfgv = e[1] if len(e) > 1 else None
+                cfgv = it.read_ref(o.store, cfgv) if isinstance(cfgv, _core.Ref) else cfgv
+                txt = repr(cfgv)
+                meta_adt = facts.adt("config::Meta")
+                cfg_adt = facts.adt("config::Config")
+                mv = None
+                if isinstance(cfgv, _Agg) and cfg_adt:
+                    names = [f["name"] for f in cfg_adt["variants"][0]["fields"]]
+                    if "meta" in names:
+                        mv = cfgv.field(names.index("meta"))
+                if isinstance(mv, _Agg) and meta_adt:
+                    mn = [f["name"] for f in meta_adt["variants"][0]["fields"]]
+                    ver = repr(mv.field(mn.index("version"))) if "version" in mn else ""
+                    hsh = repr(mv.field(mn.index("database_hash"))) if "database_hash" in mn else ""
+                    if "config.this_version" not in ver:
+                        bad.append("the marker's version is %s, not config.this_version" % ver[:80])
+                    if "hash" not in hsh.replace("database_hash", "") or "meta.database_hash" in hsh:
+                        bad.append("the marker's hash is %s, not the result of hash_assets()" % hsh[:80])
+                else:
+                    bad.append("the configuration written is not visible (%s)" % txt[:60])
+    rep.floor("C15-R1", "write_meta effects in the session summaries", n_wm, 1)
+    rep.ob("C15-R1", "write_meta", not bad and seen_disk, "; ".join(sorted(set(bad))[:3]) if bad else
+           "every write_meta follows a successful commit and reload, on disk only, with this build's version and asset hash (%d effects)" % n_wm,
+           body.site())
 
 
 def _ref_sources(body, operand):
@@ -158,6 +146,51 @@ def open_index_summary(facts):
 DESTROY = ("remove_dir_all", "remove_dir", "create_in_dir")
 
 
+def open_index_verdicts(facts):
+    """How open_index tells its caller whether the index must be rebuilt: {"kind": "tuple"} for (bool, Index), or
+    {"kind": "enum", "path": .., "created": variant index, "reused": variant index} for a two-variant enum whose variants
+    carry the index - which variant means what is read off open_index's own summary (the paths that create the index
+    return one, the paths that open it the other).  None when neither shape is recognised."""
+    cached = facts.__dict__.get("_oi_verdicts", "?")
+    if cached != "?":
+        return cached
+    facts._oi_verdicts = None
+    body = facts.fn("db::open_index")
+    if body is None:
+        return None
+    rty = body.local_ty(0)
+    if "(bool," in rty.replace(" ", "").replace("(bool,", "(bool,"):
+        facts._oi_verdicts = {"kind": "tuple"}
+        return facts._oi_verdicts
+    try:
+        dom, it, b_, outs = open_index_summary(facts)
+    except _core.Undecided:
+        return None
+    created, reused, path = set(), set(), None
+    for o in outs:
+        v = o.value
+        r = v.field(0) if o.kind == "ret" and isinstance(v, _Agg) and v.path == "std::result::Result" and v.vi == 0 else None
+        if isinstance(r, _Agg) and r.kind == "adt" and r.vi is not None and facts.adt(r.path) is not None:
+            path = r.path
+            labels = [e[0] for e in dom.log(o.store)]
+            (created if "create_in_dir" in labels else reused).add(r.vi)
+    if path and len(created) == 1 and len(reused) == 1 and created != reused:
+        facts._oi_verdicts = {"kind": "enum", "path": path, "created": next(iter(created)), "reused": next(iter(reused))}
+    return facts._oi_verdicts
+
+
+def verdict_flag(facts, r):
+    """The rebuild flag an Ok value of open_index stands for: Const(True/False), a term, or None."""
+    vd = open_index_verdicts(facts)
+    if vd is None:
+        return None
+    if vd["kind"] == "tuple" and isinstance(r, _Agg) and r.kind == "tuple" and len(r.fields) == 2:
+        return r.field(0)
+    if vd["kind"] == "enum" and isinstance(r, _Agg) and r.path == vd["path"]:
+        return _Const(r.vi == vd["created"])
+    return None
+
+
 def compared_equal(pc, *mentions):
     """Is there, on this path, an equality test (==, !=, possibly negated) whose operands mention all of `mentions`, decided
     'equal'?"""
@@ -204,8 +237,10 @@ def r2_who_writes(facts, rep):
                body.site(sp), sample={"fn": body.path, "call": name})
     rep.floor("C15-R2", "file-system mutation sites", len(sites), 3)
     cs = census(facts, lambda n: n == "config::Config::write_meta")
+    # open_inner or a helper only it uses (the session summary, C15-R1/R6, follows them)
+    oi_own = CallGraph(facts).exclusive("db::Db::open_inner")
     for body, bid, t, sp, name in cs:
-        rep.ob("C15-R2", "caller-of-write_meta:%s" % body.path, body.path == "db::Db::open_inner",
+        rep.ob("C15-R2", "caller-of-write_meta:%s" % body.path, body.path in oi_own,
                "write_meta is called from %s" % body.path, body.site(sp))
     rep.floor("C15-R2", "callers of write_meta", len(cs), 1)
     for body, bid, t, sp, name in census(facts, lambda n: n in ("tantivy::Index::create_in_dir", "tantivy::Index::open_in_dir")):
@@ -267,15 +302,16 @@ def r3_invalidate_before_destroy(facts, rep):
                     bad.setdefault(lab, []).append("effects %s" % labels)
         v = o.value
         r = v.field(0) if isinstance(v, _Agg) and v.path == "std::result::Result" and v.vi == 0 else None
-        if isinstance(r, _Agg) and r.kind == "tuple" and len(r.fields) == 2:
-            flag = r.field(0)
+        flag = verdict_flag(facts, r) if r is not None else None
+        if flag is not None:
+            index_v = r.field(1) if r.kind == "tuple" else r.field(0)
             pc = dom.pc(o.store)
             if flag == _Const(False):
                 n_reuse += 1
                 veq = compared_equal(pc, "meta.version", "config.this_version")
                 opened = "open_in_dir" in labels and ("fail", "open_in_dir") not in log
                 mutated = [l for l in labels if l in DESTROY or l in ("remove_file", "create_dir_all")]
-                if not (veq and opened and not mutated and r.field(1) != _Sym("nothing")):
+                if not (veq and opened and not mutated and index_v != _Sym("nothing")):
                     badr.append("(false, index) with version-equal=%s, open_in_dir ok=%s, mutations=%s" % (veq, opened, mutated))
             elif flag == _Const(True):
                 if "create_in_dir" not in labels:
@@ -487,6 +523,15 @@ def open_inner_summary(facts, in_memory):
             return [(_Sym("hash"), store)]
         if name == "db::open_index":
             st = dom.with_log(store, ("open_index",))
+            vd = open_index_verdicts(facts)
+            if vd is not None and vd["kind"] == "enum":
+                adt_ = facts.adt(vd["path"])
+                outs_ = []
+                for flag_, key_ in ((True, "created"), (False, "reused")):
+                    vi_ = vd[key_]
+                    val_ = _Agg("adt", vd["path"], vi_, adt_["variants"][vi_]["name"], (_Sym("disk_index"),))
+                    outs_.append((_ok(val_), dom.with_pc(st, _Sym("index_rebuild"), flag_)))
+                return outs_ + [(_err(_Sym("open_index_error")), dom.with_log(st, ("fail", "open_index")))]
             tup = _Agg("tuple", None, None, None, (_Sym("index_rebuild"), _Sym("disk_index")))
             return [(_ok(tup), st), (_err(_Sym("open_index_error")), dom.with_log(st, ("fail", "open_index")))]
         if name == "config::Config::assets":
